@@ -63,6 +63,7 @@ def run(snap, tier, seed, t0, replay):
                 params["twin_basetype"] = True
             if k % 5 == 4:
                 params["third_basetype"] = True
+            params["explicit_root"] = (k % 6 != 5)
         params_list.append(params)
         for sub, sa in SUBS.items():
             d = os.path.join(snap.root, "genconf_%d_%s" % (k, sub))
